@@ -166,6 +166,20 @@ def cylinderTris (sides : Nat) (noTop noBottom : Bool) : List Tri :=
     ++ (if noTop then [] else shift n0 (circleTris sides))
     ++ (if noBottom then [] else shift n1 (circleTris sides))
 
+/-- circle.go:24-26: `Circle.ToMesh` panics when `Sides < 3`; `Cylinder.ToMesh` does not check `Sides` itself but
+    builds one circle per cap that is present, so it panics iff `Sides < 3` and at least one cap is generated
+    (a cap-less pipe with fewer than 3 sides is accepted and degenerate). -/
+def cylinderAdmissible (sides : Nat) (noTop noBottom : Bool) : Bool :=
+  decide (3 ≤ sides) || (noTop && noBottom)
+
+/-- the constructor as a partial function: `none` = panic -/
+def cylinder? (sides : Nat) (noTop noBottom : Bool) : Option (List Tri) :=
+  if cylinderAdmissible sides noTop noBottom then some (cylinderTris sides noTop noBottom) else none
+
+/-- `UVSphere` as a partial function: `none` = panic -/
+def uvSphere? (rows cols : Nat) : Option (List Tri) :=
+  if uvAdmissible rows cols then some (uvSphereTris rows cols) else none
+
 def cylinderNV (sides : Nat) (noTop noBottom : Bool) : Nat :=
   cylinderSideNV sides + (if noTop then 0 else circleNV sides) + (if noBottom then 0 else circleNV sides)
 
